@@ -217,6 +217,8 @@ class SimFS(object):
         self.frozen = False
         self.op_count = 0
         self.op_log = None          # optional list of (op, key)
+        self.probes = {}
+        self.dead_fds = set()
         root = Inode(1, 'd', 0o755, 0.0)
         root.nlink = 1
         self.inodes[1] = root
@@ -601,6 +603,8 @@ class SimFS(object):
     def _ofd(self, fd):
         ent = self.fds.get(fd)
         if ent is None:
+            if fd in self.dead_fds:
+                raise SimCrash()    # descriptor of a killed process: nothing it does has an effect
             raise _err(errno.EBADF)
         return ent[0]
 
@@ -673,6 +677,7 @@ class SimFS(object):
     def kill_proc(self, proc):
         for fd in list(proc.fds.keys()):
             if fd in self.fds:
+                self.dead_fds.add(fd)
                 self._drop_fd(fd)
 
     def fd_read(self, fd, n):
@@ -725,6 +730,8 @@ class SimFS(object):
         ofd = self._ofd(fd)
         self._enter('flock', ofd.path)
         n = ofd.inode
+        if n.nlink == 0:
+            self.probes['flock_on_unlinked_inode'] = self.probes.get('flock_on_unlinked_inode', 0) + 1
         if flags & fcntl.LOCK_UN:
             if n.lock_owner is ofd:
                 n.lock_owner = None
